@@ -80,7 +80,9 @@ bool MPSInput::readLine()
       // Read until we have a non-empty, non-comment line.
       do
       {
-         if(!m_input.getline(m_buf, sizeof(m_buf)).good() && !m_input.eof())
+         // the last line may end without a newline (eof is set, but characters were read); once the end of the input
+         // has been reached nothing is read any more and there is no further line
+         if(!m_input.getline(m_buf, sizeof(m_buf)).good() && (!m_input.eof() || m_input.gcount() == 0))
             return false;
 
          m_lineno++;
